@@ -39,10 +39,24 @@ def tname(t):
 
 
 def regenerate(ctx):
-  # Model/TempIds.v allocates ids with Model/RowIds.fill, whose tie to the source is the translated loop
+  import os
+  from harness import tmp2v
+  # Model/TempIds.v allocates ids with Model/RowIds.alloc, whose tie to the source is the translated loop
   # (GristGen.RowIds_gen): regenerate it here too, so that this check never runs against a stale translation.
   from harness.props import c27
   c27.regenerate(ctx)
+  # the temporary-id code itself (action_summary.py, column.py, useractions.py) -> coq/gen/TempIds_gen.v
+  try:
+    text = tmp2v.generate(core.GRIST)
+  except tmp2v.Untranslatable as e:
+    raise core.TieBroken('the temporary-row-id code is outside the translated subset: %s' % e)
+  path = os.path.join(core.COQ, 'gen', 'TempIds_gen.v')
+  if core.write_if_changed(path, text):
+    for ext in ('.vo', '.vos', '.vok', '.glob'):
+      try:
+        os.remove(path[:-2] + ext)
+      except OSError:
+        pass
 
 
 # ------------------------------------------------------------------------------------------------
@@ -401,6 +415,7 @@ def gen_cases(ctx):
 
 
 def correspond(ctx):
+  validate_translation(ctx)
   # (a) ActionSummary.update_new_rows_map / translate_new_row_ids called directly
   import action_summary
   rng = ctx.rng
@@ -657,3 +672,90 @@ LEVEL_TEXT = ('Kernel-checked: after update_new_rows_map a temporary id translat
 LEVEL_NOTE = ('Hand-written model (Model/TempIds.v) tied to the code by differential bundles on the real engine and direct '
               'calls of ActionSummary each run; allocation uses Model/RowIds.alloc (translated loops, C27). "No trace" after '
               'a rejected bundle is the engine rollback (C04), observed on the implementation, not modelled.')
+
+
+# ------------------------------------------------------------------------------------------------
+# differential validation of the translator (harness/tmp2v.py): the generated definitions, evaluated by vm_compute,
+# against the running functions / the source statements executed as they are, on generated arguments
+
+class _Obj(object):
+  def __init__(self, **kw):
+    self.__dict__.update(kw)
+
+
+def cell_lit(v):
+  if v is None:
+    return 'CNone'
+  if isinstance(v, list):
+    return '(CList %s)' % zl(v)
+  if isinstance(v, str):
+    return '(COther %s)' % z(TXT.index(v) + 1 if v in TXT else 99)
+  if isinstance(v, int) and not isinstance(v, bool):
+    return '(CInt %s)' % z(v)
+  raise core.TieBroken('unexpected cell %r' % (v,))
+
+
+def validate_translation(ctx):
+  import action_summary
+  import actions
+  from harness import tmp2v, rowids_env as env
+  rng = ctx.rng
+  up_fn, rm_fn = tmp2v.fragment_functions(core.GRIST)
+  e = env.new_doc([('T0', [('R', 'Ref:T1'), ('L', 'RefList:T1')]), ('T1', [])])
+  ref_col = e.tables['T0'].get_column('R')
+  list_col = e.tables['T0'].get_column('L')
+  TID = {'T0': 0, 'T1': 1}
+  cases = {'translate': [], 'remove': [], 'update': [], 'ref': [], 'reflist': []}
+  def ids_list(n):
+    return [rng.choice([-1, -2, -3, -4, 0, 1, 5, 7, 30, -1, 5]) for _ in range(n)]
+  for _ in range(ctx.n(150, 1500)):
+    summ = action_summary.ActionSummary()
+    sm = '(fun _ => [])'
+    for _u in range(rng.choice([0, 1, 1, 2, 3])):
+      n = rng.choice([0, 1, 2, 3, 4])
+      temps = [rng.choice([None, 0, -1, -2, -3, -1, 5, 7, -2]) for _k in range(n)]
+      finals = [rng.randint(1, 30) for _k in range(n if rng.random() < 0.85 else rng.randint(0, 4))]
+      tb = rng.choice(['T0', 'T1'])
+      summ.update_new_rows_map(tb, list(temps), list(finals))
+      sm = '(update_new_rows_map %s %s %s %s)' % (sm, z(TID[tb]), tl([core.optlit(x, z) for x in temps], '(option Z)'),
+                                                 zl(finals))
+    ids = ids_list(rng.randint(0, 5))
+    tb = rng.choice(['T0', 'T1'])
+    cases['translate'].append('(%s, %s, %s, %s)' % (sm, z(TID[tb]), zl(ids), zl(summ.translate_new_row_ids(tb, list(ids)))))
+    fake = _Obj(_engine=_Obj(out_actions=_Obj(summary=summ)), removed=None)
+    fake._do_doc_action = lambda a, fake=fake: setattr(fake, 'removed', list(a.row_ids))
+    removed, rset = rm_fn(fake, tb, list(ids), actions)
+    cases['remove'].append('(%s, %s, %s, (%s, %s))' % (sm, z(TID[tb]), zl(ids), zl(removed), zl(sorted(rset))))
+    cols = {0: [rng.randint(100, 999) for _k in ids], 1: [rng.randint(100, 999) for _k in ids]}
+    ids2, cols2 = up_fn(fake, tb, list(ids), {k: list(v) for k, v in cols.items()})
+    lit = lambda c: core.coq_list(['(%s, %s)' % (z(k), zl(c[k])) for k in (0, 1)])
+    cases['update'].append('(%s, %s, %s, %s, (%s, %s))' % (sm, z(TID[tb]), zl(ids), lit(cols), zl(ids2), lit(cols2)))
+    for col, kind, gen in ((ref_col, 'ref', lambda: rng.choice([rng.choice(ids_list(1)), 'foo', 'bar', None, 2])),
+                           (list_col, 'reflist', lambda: rng.choice([ids_list(rng.randint(1, 3)), None, 'foo', [2, 5]]))):
+      vals = [gen() for _k in range(rng.choice([0, 1, 2, 3]))]
+      try:
+        out, _adj = col.prepare_new_values(list(range(1, len(vals) + 1)), copy.deepcopy(vals), action_summary=summ)
+        res = '(PyOk %s)' % tl([cell_lit(v) for v in out], 'pycell')
+      except ValueError:
+        res = '(PyErr PyValueError)'
+      cases[kind].append('(%s, %s, %s)' % (sm, tl([cell_lit(v) for v in vals], 'pycell'), res))
+  imports = ['Grist.Lib.PyPrelude', 'Grist.Lib.PyMonad', 'Grist.Lib.PyTmp', 'Grist.Model.RowIds', 'GristGen.TempIds_gen']
+  cells_eqb = '(py_result_eqb (py_list_eqb pycell_eqb))'
+  cols_eqb = '(py_list_eqb (py_pair_eqb Z.eqb (py_list_eqb Z.eqb)))'
+  checks = {
+    'translate': "fun c => let '(sm, t, ids, out) := c in py_list_eqb Z.eqb (translate_new_row_ids sm t ids) out",
+    'remove': "fun c => let '(sm, t, ids, out) := c in let r := remove_row_ids sm t ids in "
+              "py_list_eqb Z.eqb (fst r) (fst out) && same_setb (snd r) (snd out)",
+    'update': "fun c => let '(sm, t, ids, cols, out) := c in let r := update_row_ids sm t ids cols in "
+              "py_list_eqb Z.eqb (fst r) (fst out) && %s (snd r) (snd out)" % cols_eqb,
+    'ref': "fun c => let '(sm, vals, out) := c in %s (ref_prepare_new_values sm 0 1 vals) out" % cells_eqb,
+    'reflist': "fun c => let '(sm, vals, out) := c in %s (reflist_prepare_new_values sm 0 1 vals) out" % cells_eqb,
+  }
+  counts = {}
+  for kind in sorted(cases):
+    bad = ctx.run_cases('tr_' + kind, imports, checks[kind], cases[kind], shard=800)
+    counts[kind] = len(cases[kind])
+    ctx.bump('translator-validation:' + kind, len(cases[kind]))
+    for i in bad[:3]:
+      ctx.broken('correspondence:translated %s differs from the running code' % kind, cases[kind][i][:600])
+  ctx.extra['translator_validation'] = counts
